@@ -8,7 +8,7 @@ EXTENDS AtsMC
 CONSTANT Tier
 
 P(k) == Dec(k * SCALE, "plain")
-R(n) == Dec(n, "plain")
+R(n) == Dec(n * 100, "plain")          \* a rate given in units of 0.0001
 
 Casts == {
   [name |-> "distinct", seller |-> "seller1", buyer |-> "buyer1", approvers |-> <<"appr1">>, approvers2 |-> <<"appr1", "appr2">>,
